@@ -192,6 +192,7 @@ type Gen struct {
 	Tagged   bool    // values are unique string tags only (C04)
 	Shallow  bool    // documents: objects hold primitives only (C02's reference can derive every identity)
 	Exotic   float64 // probability that a value is a Go-native exotic value (GoVal)
+	UpdBias  float64 // extra probability of choosing an update on a non-empty sequence
 	ExactF32 bool    // float32 values are limited to ones whose float64 widening prints identically
 	NilField bool    // exotic structs may carry nil slice / map / pointer fields
 }
@@ -394,6 +395,9 @@ func (g *Gen) seqOp(n int, path []interface{}, depth int) Op {
 		return g.Prim()
 	}
 	k := r.Intn(6)
+	if n > 0 && g.UpdBias > 0 && r.Float64() < g.UpdBias {
+		k = 5
+	}
 	if n == 0 || k <= 2 {
 		cnt := g.batch()
 		var vs []interface{}
